@@ -292,10 +292,18 @@ def _model_call(drv, obs, case, mode):
     return out
 
 
-# run_model needs the implementation's observation (the stored states ARE the model's input);
-# runcheck calls run_model(drv, case) only, so run_impl's result is handed over through the case.
+# run_model needs the implementation's observation (the stored states of the REAL run are the
+# model's input).  runcheck calls predicates(case, impl) and then run_model(drv, case) for the
+# same case in the same process, so the observation is handed over through `_LAST`.
+_LAST = {"key": None, "obs": None}
+
+
+def _key(case):
+    return id(case)
+
+
 def run_model(drv, case):
-    obs = case.get("_obs")
+    obs = _LAST["obs"] if _LAST["key"] == _key(case) else None
     if obs is None:
         obs = run_impl(case)
     if obs.get("raise"):
@@ -386,6 +394,7 @@ def _first(row, thr):
 
 def predicates(case, impl):
     out = []
+    _LAST["key"], _LAST["obs"] = _key(case), impl
     if case["kind"] not in ("real", "laststep"):
         return out
     if impl.get("raise"):
